@@ -230,6 +230,7 @@ func csrfHostname(h string) string {
 }
 
 func csrfMain(s *simrt.Sim, info *harness.RunInfo) {
+	harness.ChooseTransportNoPause(s, 150) // some runs go through fasthttp's real connection loop
 	faults := s.Chance(500)
 	info.Faults = faults
 	// third stratum: concurrent browsers against a protected handler that takes time
